@@ -170,7 +170,8 @@ def run(ctx):
         return res
     # kill_by_io_cost
     for f, ls in rank_lambdas("KillIOCost"):
-        keys = [ret_text(l, r) for l in ls for r in returns(l)]
+        # the closure's parameter is the candidate, whatever it is called
+        keys = [re.sub(r"^%s\b" % re.escape(l.params[0]["name"]), "cgroup_ctx", ret_text(l, r)) if l.params else ret_text(l, r) for l in ls for r in returns(l)]
         ctx.check(keys == ["cgroup_ctx.io_cost_rate(nullptr).value_or(0)"], "metric:kill_by_io_cost", "value-shape", f.loc(), "ranks by io_cost_rate", "ranks by " + str(keys))
     # kill_by_pg_scan
     for f, ls in rank_lambdas("KillPgScan"):
